@@ -28,7 +28,7 @@ generations of children.  One action per critical section / blocking operation:
 | env     | `stopCall`, `cancelCtx` | a `Stop()` caller closes the stop channel; the parent context ends                |
 |         | `childRun g c`    | the goroutine of child `c` of generation `g` calls the child's `Run`                    |
 |         | `childExit g c o` | that `Run` returns (`o`: nil / cancellation error / real error) — at any time: children are arbitrary; `childExitDropped`: a real error that did not fit into `serverErrors` |
-|         | `childStopRet c`  | a pending `Stop()` of child `c` returns (they run in parallel); a *blocking* child (`lifecycle.StartStop` style) only once its `Run` has been invoked and has returned |
+|         | `childStopRet c`  | a pending `Stop()` of child `c` returns (they run in parallel); a *blocking* child (`lifecycle.StartStop` style) only once its `Run` has been invoked and has returned, or if its last `Run` had finished when the `Stop()` was entered (`childStopInv`, `okd`) |
 |         | `reloadCall`, `reloadAck st`, `retAck r st`, `stopDone`, `observe st`, `childStopInv c` | what callers see: a `Reload()` is called (waits for `reloadMu`) / has returned and `GetState()` read `st`; `Run()` has returned `r` with state `st`; a `Stop()` caller is released; a state query; a child's `Stop()` is entered |
 
 A generation's context is derived from the context `boot` was given: `runCtx` in `Run`, the field
@@ -93,6 +93,7 @@ structure St where
   acked     : Nat := 0                               -- Reload() returns seen by their callers
   retAcked  : Bool := false                          -- the return of Run() was seen by its caller
   blockers  : List Nat := []                         -- children whose Stop() is lifecycle.StartStop style
+  okd       : List Nat := []                         -- pending lifecycle-style Stop()s that found their last Run finished when they were entered
   nilBoot   : Bool := false                          -- ghost: boot was given a nil context
   deriving DecidableEq, Repr
 
@@ -232,10 +233,13 @@ def step (s : St) : Act → Option St
      | _ => none)
   | .observe st => if s.fsm == st then some s else none
   | .childStopInv c =>
+    -- a lifecycle-style Stop() that is entered while the child's last Run has finished (and the next one has not begun)
+    -- returns at once, whatever begins afterwards: remember what it saw
+    let s' : St := if ranAndReturned s c then { s with okd := c :: s.okd } else s
     (match s.run, s.rl with
-     | .stopping p, _ => if p.contains c then some s else none
-     | .failStopping p _, _ => if p.contains c then some s else none
-     | _, .stopping _ p => if p.contains c then some s else none
+     | .stopping p, _ => if p.contains c then some s' else none
+     | .failStopping p _, _ => if p.contains c then some s' else none
+     | _, .stopping _ p => if p.contains c then some s' else none
      | _, _ => none)
   | .cancelCtx => some { s with parentDone := true, runCancelled := s.runCancelled || s.rctx }
   | .childRun g c =>
@@ -253,11 +257,11 @@ def step (s : St) : Act → Option St
     | some .running => some (setChild s g c (.exited .realErr))
     | _ => none
   | .childStopRet c =>       -- the Stop() goroutines run in parallel: any pending one may return
-    let ok := !s.blockers.contains c || ranAndReturned s c
+    let ok := !s.blockers.contains c || ranAndReturned s c || s.okd.contains c
     match s.run, s.rl with
-    | .stopping p, _ => if p.contains c && ok then some { s with run := .stopping (p.erase c) } else none
-    | .failStopping p e, _ => if p.contains c && ok then some { s with run := .failStopping (p.erase c) e } else none
-    | _, .stopping cfg p => if p.contains c && ok then some { s with rl := .stopping cfg (p.erase c) } else none
+    | .stopping p, _ => if p.contains c && ok then some { s with run := .stopping (p.erase c), okd := s.okd.erase c } else none
+    | .failStopping p e, _ => if p.contains c && ok then some { s with run := .failStopping (p.erase c) e, okd := s.okd.erase c } else none
+    | _, .stopping cfg p => if p.contains c && ok then some { s with rl := .stopping cfg (p.erase c), okd := s.okd.erase c } else none
     | _, _ => none
 
 def lts : Lts St Act := ⟨step⟩
